@@ -815,12 +815,18 @@ func cmdDeterminism(n int) int {
 		for rep := 0; rep < 2; rep++ {
 			wg.Add(1)
 			id++
-			go func(c cfg, id int) {
+			go func(c cfg, id int, rep int) {
 				defer wg.Done()
 				sem <- struct{}{}
 				defer func() { <-sem }()
 				ph := phase{Part: c.part, Race: c.race}
-				r, err := runWorker(b, c.prop, ph, 7, 0, uint64(n), id, "ENV:GOMAXPROCS="+c.procs, "-hashes", "-no-shrink")
+				// the second repeat executes only the second half of the run indices, in
+				// its own process: a run must not depend on what ran before it
+				from := uint64(0)
+				if rep == 1 {
+					from = uint64(n / 2)
+				}
+				r, err := runWorker(b, c.prop, ph, 7, from, uint64(n), id, "ENV:GOMAXPROCS="+c.procs, "-hashes", "-no-shrink")
 				mu.Lock()
 				defer mu.Unlock()
 				if err != nil {
@@ -836,14 +842,28 @@ func cmdDeterminism(n int) int {
 					}
 				}
 				if prev, ok := ref[k]; ok {
-					if strings.Join(prev, ",") != strings.Join(hs, ",") {
+					// compare on the common run indices
+					pm := map[string]string{}
+					for _, h := range prev {
+						pm[h[:strings.Index(h, ":")]] = h
+					}
+					same := len(hs) > 0
+					for _, h := range hs {
+						if o, ok := pm[h[:strings.Index(h, ":")]]; ok && o != h {
+							same = false
+						}
+					}
+					if !same {
 						bad++
 						fmt.Printf("selftest: NONDETERMINISM prop=%s part=%s race=%v GOMAXPROCS=%s\n", c.prop, c.part, c.race, c.procs)
 					}
+				} else if rep == 0 {
+					ref[k] = hs
 				} else {
+					// the full batch has not reported yet: keep this half as reference
 					ref[k] = hs
 				}
-			}(c, id)
+			}(c, id, rep)
 		}
 	}
 	wg.Wait()
